@@ -134,7 +134,7 @@ def units(rng, n):
 def run(rep, tier, seed):
     rng = random.Random(seed * 1000003 + 15)
     quick = tier == "quick"
-    pool = units(rng, 400 if quick else 4000)
+    pool = units(rng, 800 if quick else 4000)
     solo_cases = [Case("u%d" % i, steps, timeout=60) for i, (_, steps) in enumerate(pool)]
     solo = run_cases(solo_cases)
     ok_units = []
@@ -145,7 +145,7 @@ def run(rep, tier, seed):
                 rep.crash(r, c)
             continue
         ok_units.append(i)
-    n_seq = 1200 if quick else 30000
+    n_seq = 3000 if quick else 30000
     seqs = []
     for k in range(n_seq):
         length = rng.randint(2, 8)
